@@ -335,7 +335,7 @@ func init() {
 					panic("building a table with registered callbacks panicked: " + o.Panic)
 				}
 				// the building calls themselves panicked: there is no table to render (not this property's concern)
-				return CaseOut{Coq: "(mkView 0%nat None [] [None] [None], [], None, None)", Desc: map[string]interface{}{"skipped": "build panicked: " + o.Panic},
+				return CaseOut{Coq: "(mkView 0%nat None [] [None] [None], [], None, None, None)", Desc: map[string]interface{}{"skipped": "build panicked: " + o.Panic},
 					Size: ts.Size(), Tags: []string{"skipped=build-panicked"}, Key: string(spec), Nontrivial: false}
 			}
 			addLog := append([]int{}, c09CbLog...)
@@ -489,6 +489,15 @@ func init() {
 					tags = append(tags, "pipeline-case")
 				}
 			}
+			// ... and the same table on a real table of its own, some of whose mutable
+			// items are then changed in place and some of the cells holding them updated
+			pipeMut := "None"
+			if !sp.TwoTables {
+				if mterm, ok := pipeMutCase(ts, uint64(len(spec))*2654435761+uint64(len(outs))); ok {
+					pipeMut = cqSome(mterm)
+					tags = append(tags, "pipeline-mutation-case")
+				}
+			}
 			cbTerm := "None"
 			cbKey := ""
 			if probeCbs != nil {
@@ -539,7 +548,7 @@ func init() {
 				}
 			}
 			return CaseOut{
-				Coq:        "(" + vc + ", " + cqList(outs) + ", " + pipe + ", " + cbTerm + ")",
+				Coq:        "(" + vc + ", " + cqList(outs) + ", " + pipe + ", " + cbTerm + ", " + pipeMut + ")",
 				Desc:       map[string]interface{}{"failing_shown": bads, "outcome_classes": classes, "sig": sig},
 				Size:       ts.Size() + c09CbsSize(sp.Cbs),
 				Tags:       tags,
